@@ -19,6 +19,13 @@
 // of the flat-file appends in between, and the restart on a crash image
 // (second generation) are crash points; the restart is NewChainService again.
 //
+// Block-manager family (internal/c08/bmcrash.go): reorganisations, checkpoint
+// mismatch rollbacks, header batches and filter-header batches are performed
+// by the REAL block manager (handleHeadersMsg / rollBackToHeight /
+// writeCFHeadersMsg) on stores opened with the same crash hooks; every durable
+// step of both stores and every pause point of the client between them is a
+// crash point.
+//
 // "Syncing resumes": on every crash image of both families the real block
 // manager is constructed on the reopened stores and handed one valid next
 // header, which must become the new block tip. Before that, on a QUIET chain:
@@ -60,6 +67,8 @@ var (
 
 	childStartDir  = flag.String("child-start-dir", "", "start-up child mode: data directory to start on (NewChainService), SIGKILL self at real crash point -child-kill")
 	childStartScen = flag.Int("child-start-scen", 0, "start-up child mode: start-up scenario index (configuration)")
+
+	childBM = flag.Int("child-bm", -1, "block-manager family child mode: scenario index; runs it in -child-dir and SIGKILLs itself at crash point -child-kill")
 
 	childImpDir    = flag.String("child-import-dir", "", "import child mode: prepared data directory (stores pre-filled, import files written)")
 	childImpPreset = flag.Int("child-import-preset", 0, "import child mode: chain parameter preset")
@@ -213,6 +222,11 @@ func main() {
 		importChild(r.Seed)
 		return
 	}
+	if *childBM >= 0 {
+		out := c08.RunBMScenario(*childDir, c08.GenBMScenario(r.Seed, *childBM), *childKill, "", nil)
+		fmt.Fprintf(os.Stderr, "bm child: not killed (%d points, err=%v failed=%q)\n", out.Points, out.Err, out.Failed)
+		os.Exit(4)
+	}
 	if *childStartDir != "" {
 		out := c08.RunStart(*childStartDir, c08.GenStartSpec(r.Seed, *childStartScen), *childKill, nil)
 		fmt.Fprintf(os.Stderr, "start child: not killed (%d real points, err=%v panic=%q)\n", out.RealPoints, out.Err, out.Panic)
@@ -222,12 +236,14 @@ func main() {
 	r.Rule("FAMILY 1: scripts = 2 FIXED ones whatever the seed (block headers 1..5 / filter headers 1..3, 4..5 / one more block / its filter header; and the same shape above one filter checkpoint interval: block tip 1203 with the filter store brought to 300, 1100, 1160, then 1207), seeded LONG ones (block tip 1000-2600 first, filter store brought to a drawn height within the last checkpoint interval / anywhere / onto a checkpoint, then as the seeded scripts) and seeded scripts (appends of 1-220 block headers, filter-header batches shaped like writeCFHeadersMsg, single and multi-header rollbacks, reorganisation composites = per block [filter rollback, block rollback], first new header alone, rest as batch) on the real stores sharing one bbolt DB; for EVERY primitive EVERY crash point is taken: before/after each flat-file write, torn at 1 byte / record-1 / one record of a longer batch / record+1 / total-1, after each file truncate, after each index commit; each crash image is opened like a restarting client and must (1) open, (2) hold exactly the entries from before or after the primitive in each store, (3) have whole-record files agreeing with the tips, (4) have by-hash lookups agreeing and no stale entries, (5) keep filter tip <= block tip, (5b) FILTER-HEADER SYNC RESUMES ON A QUIET CHAIN: the REAL block manager is constructed on the reopened stores and STARTED (block handler and filter-header handler goroutines) with one honest scripted peer behind its all-peers query and its batch dispatcher that answers getcfheaders / getcfcheckpt for exactly the image's block chain from the ground truth (filter hash = fixed function of the block hash, header = dsha256(hash || previous header) from the stored genesis filter header; the scripts write exactly these) and announces NO block: at the handler's own quiescent point (it announces, on its goroutine, that it goes to sleep until new block headers arrive) the filter-header store must have reached the block tip and hold the ground truth at every height, the block store must be unchanged; going to sleep with the filter tip below the block tip while block headers are current is a violation (nothing but a block that is not coming wakes it), as is a filter tip that has not moved after 4 getcfheaders rounds to the honest peer; images with level tips are the control (must stay level); (6) let the REAL block manager be constructed on the reopened stores and commit one valid next header handed to its headers handler (tip advances by exactly that header), (7) accept appends that land at the right heights. " +
 		"FAMILY 2: seeded clean header imports (PoW-valid generated chains under 3 parameter presets; start height 0 / effective tip+1 / inside agreeing content; length 5-400; write batch size 1, 2, 7, a divisor, the length; stores pre-filled to block tip 0..120 with the block store ahead of the filter store by 0,1,2,3,5) run through the REAL chainimport import on the real stores with the same crash hooks; EVERY crash point announced during Import is taken; each image must pass (1)-(5) with 'before/after' = the states around the interrupted store call of the importer (so each store holds the pre-import content plus a prefix of the file ending at a durable-step boundary), hold above the prior content only the file's headers, let the block manager be constructed on the crash state, and then RE-RUNNING the same import on the recovered stores must succeed and yield exactly the complete final state, from which (6) and (7) must hold; one image in 4 (seeded) additionally gets (6)-(7) on a second copy of the crash state itself. " +
 		"START-UP FAMILY: the start-up itself is crashed on the complete client's real start-up path: neutrino.NewChainService (never started, no peers) runs on an EMPTY data directory with a database wrapper that announces a crash point before and after EVERY write transaction it is asked for, whoever makes it (filter database, header indexes, ban store; their number and order are recorded from the run, not assumed); every flat-file append seen between two such points additionally yields the torn-length images (1 byte / record-1 / ...); the completed start is a point too; the RESTART on each image is NewChainService again with the plain database, and the image must pass (1)-(7) with before = after = {genesis header, genesis filter header} read from the service's own stores, plus the public API: BestBlock = the highest block both chains reach, GetBlockHash(0) = genesis. Scenario 0 is fixed (regtest, defaults); the others draw chain (regtest, simnet, testnet3, mainnet, signet, testnet4), PersistToDisk and a filter-header assertion that agrees / is above the tip; SECOND GENERATION: the restart on a crash image (all images of scenario 0, seeded picks elsewhere) is itself crashed at every one of its own points; real SIGKILL in a child at every point of scenario 0 and two points of each other scenario. In family 1 every second image (and in family 2 the second look at the crash state) is also restarted through NewChainService instead of the two store constructors. " +
-		"distinct = (family, primitive / store-call kind @ composite / start @ state, crash-point class incl. the maker of the interrupted write transaction) plus one mark per import shape and start-up configuration; non-trivial = every image (each is a distinct on-disk state)")
+		"BLOCK-MANAGER FAMILY: the multi-store operations are performed by the REAL block manager (newBlockManager on the real stores opened with the same crash hooks; messages handed synchronously to its own handlers), not scripted: REORGANISATIONS (a heavier branch through handleHeadersMsg -> rollBackToHeight -> first new header alone -> rest as batch; depth 1..6, fork point 0..8, filter tip level with the block tip / above / at / below the fork point, 0-2 already-stored headers in front of the branch), CHECKPOINT-MISMATCH ROLLBACKS (headers up to the next checkpoint height with another block there: rollBackToHeight(previous checkpoint or genesis) through both stores), HEADER BATCHES and FILTER-HEADER BATCHES (getUncheckpointedCFHeaders -> writeCFHeadersMsg against one honest scripted peer); 4 FIXED scenarios whatever the seed (depth-1 reorganisation with filter tip == block tip; depth-3 reorganisation with the filter tip one above the fork point, then the filter-header round; checkpoints 4/10, tips 8/8, mismatch at 10; headers 5 / round / 1 / round from genesis) and seeded ones (per 13: 9 reorganisations walking every depth and every filter-tip position, 2 checkpoint mismatches, 2 sync histories); EVERY mutating store call the block manager makes is one durable step (before/after = the store contents around that call), EVERY crash point inside it (index commit, file append with the torn lengths, truncate) and EVERY pause point of the client between the steps (rb.betweenStores, rb.afterBlock, hdr.reorg.afterRollback, hdr.beforeBatchWrite, cf.beforeWrite, cf.afterWrite; before = after) yields an image that must pass (1)-(7); an uninterrupted operation must not panic; real SIGKILL in a child at two points of each fixed scenario and seeded picks. " +
+		"distinct = (family, primitive / store-call kind @ composite / start @ state / block-manager operation [start shape] store call, crash-point class incl. the maker of the interrupted write transaction) plus one mark per import shape, start-up configuration and (rolling-back operation, depth, filter-tip position); non-trivial = every image (each is a distinct on-disk state)")
 	r.Assume("process death model: completed write/truncate syscalls persist, bbolt's own commit is atomic (exercised by the random-instant kills, not enumerated); power-loss reordering is out of reach")
 	r.Assume("scripts obey the callers' contract: filter headers only for stored blocks; on rollback the filter store is rolled back before the block store")
 	r.Assume("import family: only imports that the importer accepts and completes without a crash are crashed (refusals and invalid files are C14's subject); a failed store write needs a fault, not a crash, and is C14's subject too")
 	r.Assume("start-up family: the store constructors open their flat files themselves, so a genesis append is observed as the growth of the file between two write-transaction boundaries (the torn images are that state with the file cut), and two file operations between the same two boundaries are not separated")
 	r.Assume("filter-sync resume step: the honest peer exists as the responder of the block manager's two network functions (all-peers query, batch dispatcher) and as the 'a peer is connected' signal; it is never handed over as a sync candidate, so 'block headers are current' is decided by the fixed clock (tip + 1 h); the handler's quiescent point is the client's own pause point before its wait for new block headers (verif build tag), attributed to a block manager by the goroutine that called that manager's clock / network functions; stores pre-filled with arbitrary filter headers (import family) are served relative to what is stored, and skipped (counted) where a checkpointed fetch would have to re-derive them")
+	r.Assume("block-manager family: a never-connected btcd peer stands in for the sender; the block manager is not started (its handlers are called one message at a time on the harness's goroutine, its notification channel is drained), so the pause points are attributed to a run by the goroutine that reaches them; the clock is one hour after the newest header involved; what an uninterrupted operation writes is taken from the store calls themselves and compared with the expected end state of that kind of operation (a difference is inconclusive here: C01/C02's subject); stores are pre-filled at store level without crash points")
 	r.Assume("block manager restart: a never-connected btcd peer stands in for the sender of the one header; the block manager's clock is a fixed instant derived from the chain (tip + 1 h for scripts, the generated chains' reference clock for imports), never the wall clock")
 
 	root := scratch()
@@ -249,10 +265,20 @@ func main() {
 	// thorough (280 scripts / 92 imports) 12 min; thorough counts set for <= 25 min.
 	nScripts, nOps := r.Pick(30, 380), r.Pick(24, 40)
 	nKill := r.Pick(64, 2000)
+	// Development aid (never set by registered commands): C08_ONLY=bm runs the
+	// block-manager family alone.
+	onlyBM := os.Getenv("C08_ONLY") == "bm"
+	if onlyBM {
+		nScripts, nKill = 0, 0
+		r.Set("development_run_only_family", "bm")
+	}
 	nRandom := r.Pick(0, 500)
 	// 2 fixed cases + 20 (quick) seeded ones = every (preset, batch class) pair.
 	nImports, maxBatches := r.Pick(22, 122), r.Pick(12, 20)
 	nKillImp := r.Pick(24, 400)
+	if onlyBM {
+		nImports, nKillImp = 0, 0
+	}
 	const keepImportRecs = 40 // SIGKILL cases are drawn from the first imports
 	// Every import image gets: block manager constructed on the crash state,
 	// the import re-run, block manager restarted (one header) on the result.
@@ -282,7 +308,7 @@ func main() {
 	}
 
 	// ---- Family 0: the very first start on an empty directory -------------
-	{
+	if !onlyBM {
 		tm, err := c08.NewRunner(func() string {
 			d := filepath.Join(root, "c08-genesis-model")
 			_ = os.RemoveAll(d)
@@ -342,6 +368,9 @@ func main() {
 	// of ITS points.
 	nStartScen := r.Pick(6, 18)       // scenario 0 is fixed, the others seeded
 	startGen2PerScen := r.Pick(2, 40) // seeded picks of second-generation states per seeded scenario (scenario 0: all)
+	if onlyBM {
+		nStartScen = 0
+	}
 	type startJob struct {
 		scen, gen int
 		spec      *c08.StartSpec
@@ -515,7 +544,10 @@ func main() {
 	// ones, then the seeded ones.
 	nLong, nLongOps := r.Pick(1, 16), r.Pick(6, 16)
 	var sjobs []sjob
-	for i := range c08.FixedScripts {
+	if onlyBM {
+		nLong = 0
+	}
+	for i := 0; i < len(c08.FixedScripts) && !onlyBM; i++ {
 		sjobs = append(sjobs, sjob{c08.ScriptFixed, c08.FixedScriptSeed0 + int64(i), 0, fmt.Sprintf("fixed-%d", i)})
 	}
 	for i := 0; i < nLong; i++ {
@@ -762,6 +794,124 @@ func main() {
 			}
 		}()
 	}
+	// ---- Family 3: the real block manager's multi-store operations ----------
+	// (internal/c08/bmcrash.go) Reorganisations, checkpoint-mismatch rollbacks,
+	// header batches and filter-header batches are performed by the REAL block
+	// manager on stores opened with the crash hooks; every durable step of both
+	// stores and every pause point of the client in between is a crash point.
+	nBM := c08.NumFixedBMScenarios() + r.Pick(13, 130)
+	nKillBM := r.Pick(16, 200)
+	type bmRec struct {
+		st *c08.BMStep
+		pt c08.Point
+	}
+	bmRecs := map[int][]bmRec{}
+	checkBM := func(sc *c08.BMScenario, st *c08.BMStep, pt c08.Point, img string, seed int64, kill int) {
+		var svc *c08.StartSpec
+		if seed&1 == 0 {
+			svc = c08.PlainStartSpec(sc.P)
+		}
+		fs, inc := (&c08.ImageCheck{Dir: img, Params: sc.P, Before: st.Before, After: st.After, Rng: rand.New(rand.NewSource(seed)),
+			Sig: c08.BMSig(st, pt), Ctx: c08.BMCtx(sc, st, pt), BM: sc.Opts(), Stats: bmStats, Service: svc}).Run()
+		_ = os.RemoveAll(img)
+		if inc != "" {
+			r.Inconclusive(inc)
+		}
+		pre := ""
+		if kill >= 0 {
+			pre = "[real SIGKILL] "
+			r.Case("sigkill|"+c08.BMFingerprint(st, pt), true)
+			r.Count("bmfamily_sigkill_cases", 1)
+		} else {
+			r.Case(c08.BMFingerprint(st, pt), true)
+			r.Count("crash_images_checked", 1)
+			r.Count("bmfamily_images_checked", 1)
+			r.Count("bmfamily_points_"+strings.SplitN(pt.Class, "/", 2)[0], 1)
+			if st.Op.Kind == "pause" {
+				r.Count("bmfamily_"+strings.ReplaceAll(pt.Class, "/", "_"), 1)
+			}
+			if sc.Class == "fixed" {
+				r.Count("bmfamily_images_of_fixed_scenarios", 1)
+			}
+		}
+		for _, fd := range fs {
+			w := map[string]any{"family": "real block manager under crashes", "scenario": sc.String(), "scenario_index": sc.Idx,
+				"operation_index": st.OpIdx, "operation": st.BMOp.String(), "start_shape": st.Rel, "store_call": st.Op.String(), "point": pt.Name,
+				"before_tips": [2]int{len(st.Before.Blocks) - 1, len(st.Before.Filters) - 1},
+				"after_tips":  [2]int{len(st.After.Blocks) - 1, len(st.After.Filters) - 1},
+				"reproduce":   fmt.Sprintf("VERIF_SEED=%d ./check C08 %s  (block-manager scenario %d)", r.Seed, r.Tier, sc.Idx)}
+			if kill >= 0 {
+				w["kill_point"] = kill
+			}
+			r.Violation(fd.Sig, pre+fd.What, w)
+		}
+	}
+	bmIdxs := make(chan int)
+	for w := 0; w < min(workers, 3); w++ {
+		wg.Add(1)
+		go func() {
+			defer wg.Done()
+			for idx := range bmIdxs {
+				sc := c08.GenBMScenario(r.Seed, idx)
+				dir := filepath.Join(root, fmt.Sprintf("c08-bm-%d", idx))
+				_ = os.RemoveAll(dir)
+				if err := c08.CopyDir(tmpl, dir); err != nil {
+					r.Inconclusive("copy template: " + err.Error())
+					continue
+				}
+				var recs []bmRec
+				nimg := 0
+				out := c08.RunBMScenario(dir, sc, -1, filepath.Join(root, fmt.Sprintf("c08-bmimg-%d", idx)), func(st *c08.BMStep) {
+					if st.Op.Kind != "pause" {
+						r.Count("bmfamily_store_calls_"+st.Op.Kind+"@"+st.BMOp.Kind, 1)
+					}
+					for k, p := range st.Points {
+						recs = append(recs, bmRec{st, p})
+						img, seed := st.Images[k], r.Seed*8_000_009+int64(idx)*100_003+int64(nimg)
+						checks <- func() { checkBM(sc, st, p, img, seed, -1) }
+						nimg++
+					}
+				})
+				_ = os.RemoveAll(dir)
+				switch {
+				case out.Err != nil:
+					r.Inconclusive("block-manager scenario: " + strings.SplitN(out.Err.Error(), ":", 2)[0])
+					fmt.Fprintf(os.Stderr, "C08 block-manager scenario %d (%v): %v\n", idx, sc, out.Err)
+				case out.FailedKind == "panics":
+					r.Violation(evid.Sig("c08/operation-panics", "bm:"+sc.Ops[out.FailedOp].Kind), "the block manager panicked without any fault: "+out.Failed,
+						map[string]any{"scenario": sc.String(), "scenario_index": idx})
+				case out.FailedKind != "":
+					// Not a crash-recovery observation (what an uninterrupted
+					// operation does is C01/C02's subject).
+					r.Inconclusive("block-manager scenario: an uninterrupted operation ended in an unexpected state")
+					fmt.Fprintf(os.Stderr, "C08 block-manager scenario %d (%v): %s\n", idx, sc, out.Failed)
+				default:
+					r.Count("bmfamily_scenarios", 1)
+					r.Count("bmfamily_operations", int64(len(sc.Ops)))
+				}
+				r.Count("bmfamily_store_calls", int64(out.Steps))
+				r.Count("bmfamily_crash_points", int64(out.Points))
+				for _, sh := range out.Shapes {
+					r.Mark("bmfamily-shape|" + sh)
+				}
+				mu.Lock()
+				bmRecs[idx] = recs
+				mu.Unlock()
+				if idx < c08.NumFixedBMScenarios() {
+					r.Sample(map[string]any{"block_manager_scenario": sc.String(), "store_calls": out.Steps, "crash_points": out.Points})
+				}
+			}
+		}()
+	}
+	wg.Add(1)
+	go func() {
+		defer wg.Done()
+		for idx := 0; idx < nBM; idx++ {
+			bmIdxs <- idx
+		}
+		close(bmIdxs)
+	}()
+
 	for idx := 0; idx < nImports; idx++ {
 		idxs <- idx
 	}
@@ -772,7 +922,7 @@ func main() {
 
 	phase("1_scripts_and_imports_done")
 	r.Exhaustive(true)
-	r.Set("exhaustive_scope", "every crash point of every primitive of every generated script and every crash point announced during every generated import (in-process images); SIGKILL cases are a sample of the same points")
+	r.Set("exhaustive_scope", "every crash point of every primitive of every generated script, every crash point announced during every generated import and every crash point and client pause point passed during every block-manager scenario (in-process images); SIGKILL cases are a sample of the same points")
 
 	// Real SIGKILL at enumerated points: the child runs the same script and
 	// kills itself at point k; the parent opens what is left.
@@ -790,7 +940,7 @@ func main() {
 			seeds = append(seeds, sj)
 		}
 	}
-	for i := 0; i < nKill; i++ {
+	for i := 0; i < nKill && len(seeds) > 0; i++ {
 		s := seeds[krng.Intn(len(seeds))]
 		if n := len(pointsByScript[s.seed]); n > 0 {
 			// (duplicates would share a directory name: drop them)
@@ -929,6 +1079,65 @@ func main() {
 			skjobs <- kc
 		}
 		close(skjobs)
+		wg.Wait()
+	}
+
+	// Real SIGKILL inside an operation of the real block manager: the child runs
+	// the same scenario and kills itself at point k. Two points of each fixed
+	// scenario, seeded picks elsewhere.
+	{
+		type bkcase struct{ idx, k int }
+		var bkcases []bkcase
+		bkseen := map[bkcase]bool{}
+		bkrng := rand.New(rand.NewSource(r.Seed ^ 0x626d6b6c))
+		add := func(idx int) {
+			if n := len(bmRecs[idx]); n > 0 {
+				if kc := (bkcase{idx, bkrng.Intn(n)}); !bkseen[kc] {
+					bkseen[kc] = true
+					bkcases = append(bkcases, kc)
+				}
+			}
+		}
+		for idx := 0; idx < c08.NumFixedBMScenarios(); idx++ {
+			add(idx)
+			add(idx)
+		}
+		for i := 0; i < nKillBM; i++ {
+			add(bkrng.Intn(nBM))
+		}
+		bkjobs := make(chan bkcase)
+		for w := 0; w < workers; w++ {
+			wg.Add(1)
+			go func() {
+				defer wg.Done()
+				for kc := range bkjobs {
+					dir := filepath.Join(root, fmt.Sprintf("c08-bmkill-%d-%d", kc.idx, kc.k))
+					_ = os.RemoveAll(dir)
+					if err := c08.CopyDir(tmpl, dir); err != nil {
+						r.Inconclusive("copy template")
+						continue
+					}
+					cmd := exec.Command(exe, "-tier", r.Tier, "-seed", fmt.Sprint(r.Seed), "-child-bm", fmt.Sprint(kc.idx),
+						"-child-kill", fmt.Sprint(kc.k), "-child-dir", dir)
+					var errb bytes.Buffer
+					cmd.Stderr = &errb
+					err := cmd.Run()
+					ws, _ := cmd.ProcessState.Sys().(syscall.WaitStatus)
+					if err == nil || !ws.Signaled() || ws.Signal() != syscall.SIGKILL {
+						r.Inconclusive("block-manager kill child did not die by SIGKILL")
+						fmt.Fprintf(os.Stderr, "bm kill child %v: err=%v stderr=%s\n", kc, err, errb.String())
+						_ = os.RemoveAll(dir)
+						continue
+					}
+					rec := bmRecs[kc.idx][kc.k]
+					checkBM(c08.GenBMScenario(r.Seed, kc.idx), rec.st, rec.pt, dir, r.Seed*8_000_011+int64(kc.idx)*100_003+int64(kc.k), kc.k)
+				}
+			}()
+		}
+		for _, kc := range bkcases {
+			bkjobs <- kc
+		}
+		close(bkjobs)
 		wg.Wait()
 	}
 
@@ -1096,6 +1305,9 @@ func main() {
 			"import_images_one_header_restart_after_reimport": 1, "import_images_one_header_restart_on_crash_state": bmCrashStateOneIn})
 	}
 	_ = os.RemoveAll(tmpl)
+	if onlyBM {
+		r.Finish(1)
+	}
 	r.Finish(40)
 }
 
